@@ -57,6 +57,35 @@ def build_initial(init: dict) -> bytes:
         out = io.BytesIO()
         D.write_zip(members, out)
         return out.getvalue()
+    if init["deck"] == "genoddrids":
+        prs = pptx.Presentation()
+        s = prs.slides.add_slide(prs.slide_layouts[6])
+        for i, tok in enumerate((31, 32)):
+            s.shapes.add_picture(io.BytesIO(image_bytes(tok)), 100000 * (i + 1), 100000)
+        b = io.BytesIO()
+        prs.save(b)
+        members = D.read_zip(io.BytesIO(b.getvalue()))
+        R_NS = "http://schemas.openxmlformats.org/officeDocument/2006/relationships"
+
+        def respell(part, rels, names):
+            rr = etree.fromstring(members[rels])
+            ren = {}
+            for k, el in enumerate(x for x in rr if isinstance(x.tag, str)):
+                ren[el.get("Id")] = names[k % len(names)] if k < len(names) else "R%016x" % (0x5f0c1a2b3c4d5e6f + k)
+                el.set("Id", ren[el.get("Id")])
+            members[rels] = etree.tostring(rr, xml_declaration=True, encoding="UTF-8", standalone=True)
+            root = etree.fromstring(members[part])
+            for el in root.iter():
+                if isinstance(el.tag, str):
+                    for a, v in list(el.attrib.items()):
+                        if a.startswith("{%s}" % R_NS) and v in ren:
+                            el.set(a, ren[v])
+            members[part] = etree.tostring(root, xml_declaration=True, encoding="UTF-8", standalone=True)
+        respell("ppt/slides/slide1.xml", "ppt/slides/_rels/slide1.xml.rels", ["R5f0c1a2b3c4d5e6f", "rId01", "Rabc"])
+        respell("ppt/presentation.xml", "ppt/_rels/presentation.xml.rels", ["rId1", "R00000000000000aa", "rId07", "x", "rId3"])
+        out = io.BytesIO()
+        D.write_zip(members, out)
+        return out.getvalue()
     if init["deck"] == "genmany":
         prs = pptx.Presentation()
         s = prs.slides.add_slide(prs.slide_layouts[6])
